@@ -7,9 +7,9 @@ from decaylib import F, Gen, ancestors_sum, is_finite
 from oracle import DatasetView, LeanOracle, eval_adaptive
 
 NEEDS_DATASET = True
-TARGETS = ["RdVerif.Props.C02", "RdVerif.Props.C04", "RdVerif.Props.C01Oracle"]
+TARGETS = ["RdVerif.Props.C02", "RdVerif.Props.C04", "RdVerif.Props.C01Oracle", "RdVerif.Props.AllDatasets"]
 THEOREMS = ["RdVerif.C02.C02_symbolic", "RdVerif.C02.C02_single_parent", "RdVerif.C02.C02_sig_fig_ge", "RdVerif.C04.exact_inverses", "RdVerif.C04.exact_diagonalises", "RdVerif.C04.pickles_identical",
-            "RdVerif.C01.C01_oracle_sound"]
+            "RdVerif.C01.C01_oracle_sound", "RdVerif.AllDatasets.exact_solution", "RdVerif.AllDatasets.oracle_sound"]
 PARTIAL = {
     "C02_rel_error_partial": "relative error <= 1e-13 is checked per input against the verified oracle, and only claimed when the "
                              "exact value is >= 1e-290 x the ancestors' atoms; below that 320 significant digits are not enough "
